@@ -39,7 +39,7 @@ pub trait CaseEngine: Sync {
     }
     /// wall-clock watchdog per case (seconds)
     fn case_timeout_s(&self, _args: &Args) -> u64 {
-        600
+        120
     }
     /// what a death of the worker means for this property: true = violation
     /// ("never aborts" or any property whose code must not abort), false = inconclusive
@@ -218,6 +218,8 @@ pub fn parent_main(engine: &dyn CaseEngine, args: &Args) -> Report {
     let mut rep = Report::new(engine.property(), &engine.rule());
     let timeout = Duration::from_secs(engine.case_timeout_s(args));
     let mut live = workers;
+    let mut watchdog_kills = 0u64;
+    let max_watchdog_kills = args.u64("max-stuck", 12);
     while live > 0 {
         match rx.recv_timeout(Duration::from_secs(2)) {
             Ok(Msg::Line(i, l)) => {
@@ -260,6 +262,7 @@ pub fn parent_main(engine: &dyn CaseEngine, args: &Args) -> Report {
                     case, children[i].last_p
                 );
                 if killed_by_watchdog {
+                    watchdog_kills += 1;
                     rep.inconclusive(&format!("watchdog: case {case:?} made no progress for {}s", timeout.as_secs()));
                 } else if engine.abort_is_violation() {
                     let pclass = children[i].last_p.split_whitespace().next().unwrap_or("").to_string();
@@ -273,8 +276,17 @@ pub fn parent_main(engine: &dyn CaseEngine, args: &Args) -> Report {
                     rep.inconclusive(&detail);
                 }
                 rep.count("worker_deaths");
+                // a tree on which case after case hangs is not explored further: every stuck case costs the
+                // whole watchdog time, and the run must end in bounded time with an inconclusive verdict
+                let give_up = watchdog_kills >= max_watchdog_kills;
+                if give_up && killed_by_watchdog {
+                    let msg = format!("gave up after {watchdog_kills} cases that made no progress for {}s each: the remaining cases of this run were not explored", timeout.as_secs());
+                    if !rep.coverage_fail.contains(&msg) {
+                        rep.coverage_fail.push(msg);
+                    }
+                }
                 match case {
-                    Some(cn) if children[i].generation < 200 => {
+                    Some(cn) if children[i].generation < 200 && !give_up => {
                         let generation = children[i].generation + 1;
                         children[i] = spawn(args, i, workers, cn + 1, &tx, &scratch, generation);
                     }
@@ -288,7 +300,9 @@ pub fn parent_main(engine: &dyn CaseEngine, args: &Args) -> Report {
             }
             Err(mpsc::RecvTimeoutError::Timeout) => {
                 for c in children.iter_mut() {
-                    if !c.done && c.case.is_some() && c.last_activity.elapsed() > timeout && c.last_p != "__watchdog__" {
+                    // once the run has given up, workers that are stuck are given a short grace period only
+                    let limit = if watchdog_kills >= max_watchdog_kills { timeout.min(Duration::from_secs(10)) } else { timeout };
+                    if !c.done && c.case.is_some() && c.last_activity.elapsed() > limit && c.last_p != "__watchdog__" {
                         c.last_p = "__watchdog__".into();
                         let _ = c.proc.kill();
                     }
